@@ -319,7 +319,8 @@ fn collect_markup_repr(markup: Markup<'_>) -> MarkupRepr {
                 ) {
                     current_line.mixed_text = true;
                 }
-                if current_line.nodes.is_empty() && is_block_elem(node) {
+                // Only the first node of the markup decides the start boundary.
+                if repr.lines.is_empty() && current_line.nodes.is_empty() && is_block_elem(node) {
                     repr.start_bound = repr.start_bound.strip_space();
                 }
                 current_line.nodes.push(node);
